@@ -299,6 +299,10 @@ class ShimRLock:
 
     def acquire(self, blocking=True, timeout=-1):
         S = CUR
+        if S is None or S.cur is None:          # set-up / tear-down code outside the controlled threads
+            self.owner = "outside"
+            self.count += 1
+            return True
         me = S.cur
         if self.reentrant and self.owner == me:
             self.count += 1
@@ -320,7 +324,8 @@ class ShimRLock:
         if self.count <= 0:
             self.owner = None
             self.count = 0
-            CUR.point()
+            if CUR is not None and CUR.cur is not None:
+                CUR.point()
 
     def __enter__(self):
         self.acquire()
